@@ -235,7 +235,7 @@ def run_views(s, tier="quick", seed=0):
 
     # aliasing: in-place operations equal the value-semantics result
     for name, G, op in (("so3_imul_self", G_.so3, "mul"), ("se3_imul_self", G_.se3, "mul"), ("se3_inv_inplace", G_.se3, "inv"),
-                        ("se2_inv_inplace", G_.se2, "inv")):
+                        ("se2_inv_inplace", G_.se2, "inv")) + tuple(("@" + g_.prefix(s) + "_imul_self", g_, "mul") for g_ in (G_.so2, G_.se2, G_.c1, G_.gal, G_.sek2, G_.B1, G_.B2)):
         def go2(name=name, G=G, op=op):
             xg = group_extract(G, s)
             R = G.rep
@@ -250,7 +250,9 @@ def run_views(s, tier="quick", seed=0):
             for v in ref:
                 conds = dd.subst([t[0] for t in v.atoms], ren) if v.atoms else []
                 refs.append((frozenset((c.id, t[1]) for c, t in zip(conds, v.atoms)), dd.subst(v.out("o"), ren)))
-            for k, pv in enumerate(v for v in xt.run(pre + name, [("a", R, s)], realmode=False) if v.status == "ok"):
+            # names starting with "@" are shims of the group's own translation unit (x *= x through a Map and a const Map of one buffer)
+            src_xt, src_fn = (xg, name[1:]) if name.startswith("@") else (xt, pre + name)
+            for k, pv in enumerate(v for v in src_xt.run(src_fn, [("a", R, s)], realmode=False) if v.status == "ok"):
                 res.paths += 1
                 key = frozenset((t[0].id, t[1]) for t in pv.atoms)
                 hit = [r for r in refs if r[0] == key or r[0] <= key or key <= r[0]]
@@ -263,7 +265,7 @@ def run_views(s, tier="quick", seed=0):
                     res.add(oid, "proved", "struct", 0.0, "identical op-DAG")
                 else:
                     prove_pairs(res, oid, [("cell%d" % j, x, y) for j, (x, y) in enumerate(zip(o, hit[0][1]))], None, None, pv, None)
-        guarded(res, "%s::%s" % (tag, name), go2)
+        guarded(res, "%s::%s" % (tag, name.lstrip("@")), go2)
     return res
 
 
